@@ -53,8 +53,12 @@ def r10_2(prog: Program, rep):
         # sets filled with .add(sha) where sha iterates the unreachable set, behind the grace gate
         loops = {}
         for i, nd in g.nodes.items():
-            if nd.kind == "for_iter" and isinstance(nd.ast.iter, ast.Name) and isinstance(nd.ast.target, ast.Name):
-                loops[i] = (nd.ast.target.id, nd.ast.iter.id)
+            it_ = nd.ast.iter if nd.kind == "for_iter" else None
+            # a snapshot of the set (list(X), sorted(X), ...) iterates the same ids
+            if isinstance(it_, ast.Call) and callee_name(it_) in ("list", "tuple", "sorted", "set", "frozenset") and len(it_.args) == 1:
+                it_ = it_.args[0]
+            if nd.kind == "for_iter" and isinstance(it_, ast.Name) and isinstance(nd.ast.target, ast.Name):
+                loops[i] = (nd.ast.target.id, it_.id)
         derived = {}      # set name -> ok?
         for i, nd in g.nodes.items():
             for c in node_calls(nd):
@@ -521,9 +525,40 @@ def r10_13(prog: Program, rep):
                feeds and bool(drain) and bool(cn) and not must_pass(g, drain, cn), "the values are computed but never become roots", call.lineno)
 
 
+def r10_14(prog: Program, rep):
+    """AGE AT THE MOMENT OF DESTRUCTION.  A writer that re-uses an old unreachable object refreshes its mtime (R10.7) so that a
+    running gc keeps it.  That only works if gc looks at the age AFTER its long-running steps: in garbage_collect, under the scenario
+    {prune, not dry_run, a grace period is configured}, every path from pack_refs() - the last long step after the reachability scan -
+    to a deletion (delete_loose_object, repack(exclude=...)) passes a get_object_mtime() look (or the head of a loop that takes one
+    per object)."""
+    from sa.common import scenario_edge_filter
+    f = prog.func(GC, "garbage_collect")
+    g = cfg_of(prog, f)
+    rd = reaching_defs(g)
+    sinks = [i for i, nd in g.nodes.items() for c in node_calls(nd) if callee_name(c) == "delete_loose_object"
+             or (callee_name(c) == "repack" and any(k.arg == "exclude" for k in c.keywords))]
+    long_steps = [i for i, nd in g.nodes.items() for c in node_calls(nd) if callee_name(c) == "pack_refs"]
+    if not sinks or not long_steps:
+        raise AnalysisError(f"garbage_collect: deletion sinks ({len(sinks)}) or pack_refs() ({len(long_steps)}) not found")
+    looks = [i for i, nd in g.nodes.items() for c in node_calls(nd) if callee_name(c) == "get_object_mtime"]
+    loops = [x for x in ast.walk(f.node) if isinstance(x, ast.For) and any(isinstance(c, ast.Call) and callee_name(c) == "get_object_mtime" for c in ast.walk(x))]
+    heads = [i for i, nd in g.nodes.items() if nd.kind in ("for_iter", "for_init") and any(nd.ast is l for l in loops)]
+
+    def atoms(e):
+        return {"grace_period is not None": True, "grace_period is None": False, "prune": True, "dry_run": False, "not dry_run": True}.get(norm(e))
+    edge_ok, _ = scenario_edge_filter(g, rd, atoms)
+    starts = [b for a in long_steps for b, l in g.succ[a] if l not in EXC_LABELS]
+    bad = must_pass(g, sinks, set(looks) | set(heads), start=starts, edge_ok=edge_ok)
+    rep.ob("R10.14", GC, f.qual, "after pack_refs() the age of the objects is looked at again before anything is destroyed (grace period configured)",
+           not bad, "the prune set computed during the reachability scan is destroyed after the scan and pack_refs() without another look: an object "
+           "that a concurrent writer re-used (and freshened) in between is unlinked and dropped from the packs while a new commit references it",
+           g.nodes[bad[0]].line if bad else f.node.lineno)
+
+
 def run(prog: Program, rep, tier="quick"):
     rep.rule("R10.11", "AGE = NEWEST COPY: get_object_mtime returns the maximum over the loose file and every pack, never the first copy found")
     rep.rule("R10.12", "ITERATION ORDER: __iter__ lists loose objects before packs and rescans the pack directory until no new pack appears; fan-out listings tolerate a vanished directory")
+    rep.rule("R10.14", "AGE AT THE MOMENT OF DESTRUCTION: gc re-applies the grace period after its long-running steps, right before deleting")
     rep.rule("R10.13", "ROOTS = the refs of EVERY worktree: the root collection lists <common dir>/worktrees and the common dir itself")
     rep.rule("R10.9", "gc.pruneExpire is read as a number of seconds, never as None (= no grace at all)")
     rep.rule("R10.8", "READ-ORDER: refs are read loose first, packed second (the order in which pack_refs moves them)")
@@ -553,6 +588,7 @@ def run(prog: Program, rep, tier="quick"):
     r10_11(prog, rep)
     r10_12(prog, rep)
     r10_13(prog, rep)
+    r10_14(prog, rep)
     rep.floor("R10.13", 1)
     from sa.common import share
     from rules import c14
